@@ -34,6 +34,12 @@ Proof. reflexivity. Qed.
 Theorem globals_no_process_state_calls : pkg_process_state_calls = [].
 Proof. reflexivity. Qed.
 
+(* no package-level channel, mutex, wait group, once, condition variable, atomic value or semaphore: the interleaving
+   model has no blocking action (a thread can always take its next step), which is only adequate when the calls share
+   no primitive on which one call can wait for another *)
+Theorem globals_no_sync_state : pkg_sync_vars = [].
+Proof. reflexivity. Qed.
+
 (* ---- the property ---- *)
 
 (* If no call writes a shared variable, then for every schedule under which all calls have returned,
